@@ -66,11 +66,13 @@ def handle (inp impl : Json) : CaseResult :=
     ("stake_reported", if ops then report else ""),
     ("prepay_reported", if ops then report else ""),
     ("provider_nonces_ok", true),
-    ("cancel_unknown_reported", if ops then "error" else "")]
+    ("cancel_unknown_reported", if ops then "error" else ""),
+    -- a transaction cancelled once while pending and mined all the same: a second cancellation is refused
+    ("cancel_mined_reported", if ops then "error" else "")]
   let same (k : String) : Bool := (jobj impl k).compress == (jobj m k).compress
   let keys := ["started", "stake_reads_at", "allowance_reads_at", "other_reads", "stake_read_by", "allowance_read_by",
     "commit_txs_at", "commit_tx_from", "other_txs", "commitments", "commit_matches_tx", "provider_address_ok",
-    "engine_saw", "api_refused", "stake_tx_at", "prepay_tx_at", "stake_reported", "prepay_reported", "provider_nonces_ok", "cancel_unknown_reported"]
+    "engine_saw", "api_refused", "stake_tx_at", "prepay_tx_at", "stake_reported", "prepay_reported", "provider_nonces_ok", "cancel_unknown_reported", "cancel_mined_reported"]
   let bad := keys.filter (fun k => !same k)
   { model := m, spec := bad.isEmpty && jstr impl "err" == "",
     why := if jstr impl "err" != "" then "whole-node-scenario-failed: " ++ jstr impl "err"
